@@ -632,7 +632,8 @@ public:
 	///Get the period of the spline in a given dimension
 	double get_period(uint32_t dim) const{
 		assert(dim<ndim);
-		return(periods[dim]);
+		//tables which were fit or stacked rather than read have no periods
+		return(periods ? periods[dim] : 0.);
 	}
 	///Get the total number of spline coefficients
 	uint64_t get_ncoeffs() const{
